@@ -6,7 +6,8 @@ from simfile.ssc import SSCSimfile, SSCChart
 
 LAST = None
 MULTI = ("ATTACKS", "DISPLAYBPM")
-CHART_KEYS = ["STEPSTYPE", "DESCRIPTION", "CREDIT", "METER", "BPMS", "ATTACKS", "DISPLAYBPM", "ZZFRESH", "CHARTNAME", "OFFSET"]
+CHART_KEYS = ["STEPSTYPE", "DESCRIPTION", "CREDIT", "METER", "BPMS", "ATTACKS", "DISPLAYBPM", "ZZFRESH", "CHARTNAME", "OFFSET",
+              "NOTESKIN", "NOTESX", "XNOTES", "NOTES2X", "NOTEDATAX", "NOTE"]
 NOTES_KEYS = ["NOTES", "NOTES2"]
 
 
